@@ -10,6 +10,7 @@ import (
 	"go/types"
 	"path/filepath"
 	"sort"
+	"strconv"
 	"strings"
 	"time"
 
@@ -46,6 +47,42 @@ func canonicalDerived(src string, prefixOf func(plugin string) string) (string, 
 			return len(pps[i].prefix) > len(pps[j].prefix)
 		}
 		return pps[i].prefix > pps[j].prefix
+	})
+	// Which of two same-named imported packages gets the short alias depends
+	// on the order in which the plugins first mention them, and that order
+	// legitimately follows the prefix lengths: the alias is a file-level name,
+	// not part of a generated function. References are therefore rewritten to
+	// the import path (only identifiers the parser left unresolved, i.e.
+	// package names, are touched).
+	alias := map[string]string{}
+	var decls []string
+	var imps []string
+	for _, d := range f.Decls {
+		if gd, ok := d.(*ast.GenDecl); ok && gd.Tok == token.IMPORT {
+			for _, s := range gd.Specs {
+				is := s.(*ast.ImportSpec)
+				path, _ := strconv.Unquote(is.Path.Value)
+				n := path[strings.LastIndex(path, "/")+1:]
+				if is.Name != nil {
+					n = is.Name.Name
+				}
+				if _, dup := alias[n]; dup {
+					return "", fmt.Errorf("import name %s used twice", n)
+				}
+				alias[n] = "pkg·" + strings.NewReplacer("/", "·", ".", "·").Replace(path)
+				imps = append(imps, is.Path.Value)
+			}
+		}
+	}
+	ast.Inspect(f, func(n ast.Node) bool {
+		if se, ok := n.(*ast.SelectorExpr); ok {
+			if id, ok := se.X.(*ast.Ident); ok && id.Obj == nil {
+				if c, ok := alias[id.Name]; ok {
+					id.Name = c
+				}
+			}
+		}
+		return true
 	})
 	canon := map[string]string{}
 	for _, d := range f.Decls {
@@ -84,19 +121,9 @@ func canonicalDerived(src string, prefixOf func(plugin string) string) (string, 
 		}
 		return true
 	})
-	var decls []string
-	var imps []string
 	for _, d := range f.Decls {
 		var buf bytes.Buffer
 		if gd, ok := d.(*ast.GenDecl); ok && gd.Tok == token.IMPORT {
-			for _, s := range gd.Specs {
-				is := s.(*ast.ImportSpec)
-				n := ""
-				if is.Name != nil {
-					n = is.Name.Name + " "
-				}
-				imps = append(imps, n+is.Path.Value)
-			}
 			continue
 		}
 		if fd, ok := d.(*ast.FuncDecl); ok {
